@@ -158,7 +158,7 @@ namespace Givaro {
     //! get Counter
     int getCounter() const
     {
-        return *_cnt ;
+        return (_cnt !=0) ? *_cnt : 0 ; // an empty array has no counter
     }
 
     protected :
